@@ -29,6 +29,8 @@ use super::rtps_traits::RtpsWriter;
 
 pub struct RegisteredInstanceInfo {
     pub instance_handle: InstanceHandle,
+    /// An unregistered instance is kept because its samples are still part of the history
+    pub registered: bool,
     pub last_write_time: Option<Time>,
     pub samples: VecDeque<i64>,
 }
@@ -76,20 +78,21 @@ impl<T: RtpsWriter> DataWriterEntity<T> {
         message_writer: &(impl WriteMessage + ?Sized),
         runtime: &impl DdsRuntime,
     ) -> DdsResult<()> {
-        if !self
+        if let Some(instance_info) = self
             .registered_instance_info
-            .iter()
-            .any(|x| x.instance_handle == sample_instance_handle)
+            .iter_mut()
+            .find(|x| x.instance_handle == sample_instance_handle)
         {
-            if self.registered_instance_info.len() < self.qos.resource_limits.max_instances {
-                self.registered_instance_info.push(RegisteredInstanceInfo {
-                    instance_handle: sample_instance_handle,
-                    last_write_time: None,
-                    samples: VecDeque::new(),
-                });
-            } else {
-                return Err(DdsError::OutOfResources);
-            }
+            instance_info.registered = true;
+        } else if self.registered_instance_info.len() < self.qos.resource_limits.max_instances {
+            self.registered_instance_info.push(RegisteredInstanceInfo {
+                instance_handle: sample_instance_handle,
+                registered: true,
+                last_write_time: None,
+                samples: VecDeque::new(),
+            });
+        } else {
+            return Err(DdsError::OutOfResources);
         }
 
         if let Length::Limited(max_samples_per_instance) =
@@ -192,7 +195,7 @@ impl<T: RtpsWriter> DataWriterEntity<T> {
         let Some(instance_info) = self
             .registered_instance_info
             .iter_mut()
-            .find(|x| x.instance_handle == instance_handle)
+            .find(|x| x.instance_handle == instance_handle && x.registered)
         else {
             return Err(DdsError::BadParameter);
         };
@@ -241,10 +244,12 @@ impl<T: RtpsWriter> DataWriterEntity<T> {
             .iter_mut()
             .find(|x| x.instance_handle == instance_handle)
         {
+            instance_info.registered = true;
             instance_info.last_write_time = Some(timestamp);
         } else if self.registered_instance_info.len() < self.qos.resource_limits.max_instances {
             self.registered_instance_info.push(RegisteredInstanceInfo {
                 instance_handle,
+                registered: true,
                 last_write_time: Some(timestamp),
                 samples: VecDeque::new(),
             });
@@ -278,11 +283,12 @@ impl<T: RtpsWriter> DataWriterEntity<T> {
         let Some(instance_info) = self
             .registered_instance_info
             .iter_mut()
-            .find(|x| x.instance_handle == instance_handle)
+            .find(|x| x.instance_handle == instance_handle && x.registered)
         else {
             return Err(DdsError::BadParameter);
         };
 
+        instance_info.registered = false;
         instance_info.last_write_time = None;
 
         let serialized_key =
